@@ -4,12 +4,16 @@
    dummy node.  Model: Model/Ttns.v (renormalizer/tn/tree.py); R ranges over all commutative rings with
    involution (instances Z and the Gaussian integers).
 
-   PARTIAL (oracle only, no theorem): expectation values via TTNEnviron, calc_1site/2site/1dof/2dof RDMs,
-   entropies, and the numerical kernels (QR/SVD) inside canonicalise/compress, which enter the theorems
-   below as factorisation witnesses with an explicit contract.                                          *)
+   Second part (Model/TtnsEnv.v): the environment recursion of TTNS.expectation (incl. partial operators),
+   calc_1site_rdm / calc_1dof_rdm / calc_2site_rdm and Tree.find_path.
+   PARTIAL (oracle only, no theorem): calc_2dof_rdm, entropies, and the numerical kernels (QR/SVD) inside
+   canonicalise/compress, which enter the theorems as factorisation witnesses with an explicit contract.
+   rdm2_dense is proved for the contraction organised along the two branches below the longest common
+   prefix of the two positions (all pairs of sites); that the library's find_path returns exactly that
+   turning point and a parent/child chain is find_path_common / find_path_is_path.                       *)
 From Coq Require Import List Arith ZArith Lia Permutation.
 Import ListNotations.
-From RV Require Import Base.CRing Base.BigSum Model.Chain Model.Ttns Proofs.TtnsProofs.
+From RV Require Import Base.CRing Base.BigSum Model.Chain Model.Ttns Proofs.TtnsProofs Model.TtnsEnv Proofs.TtnsEnvProofs.
 
 (* TTNS.add: direct sum on every virtual axis, the root's parent axis shared  ==  sum of dense vectors.
    (all trees incl. the one-node tree, all arities, any number of physical indices per node) *)
@@ -120,6 +124,79 @@ Theorem names_phys_bond_disjoint : forall (R : CRing) (t : ttree R) par x,
 Proof. exact TtnsProofs.names_phys_bond_disjoint. Qed.
 Print Assumptions names_phys_bond_disjoint.
 
+
+(* ------------------------------------------------------------------ second part: environments *)
+(* TTNS.expectation: the bottom-up environment recursion (bra = conj(ket) exactly as the code conjugates,
+   operator possibly acting on a subset of the DoFs of every node, the others contracted bra-ket directly)
+   equals  sum_{s',s} conj(psi s') . O(s',s) . psi(s)  with O extended by the identity (pfull) *)
+Theorem ttns_expectation_dense : forall (R : CRing) (t : ttree R) (o : ptree R), compat R t o ->
+  forall pb po pk,
+  cenv R t o pb po pk =
+  sumcfgs R (tpdims R t) (fun su => sumcfgs R (tpdims R t) (fun sd =>
+    rmul R (rmul R (rcj R (tamp R t su pb)) (oamp R (pfull R o) su sd po)) (tamp R t sd pk))).
+Proof. exact TtnsEnvProofs.ttns_expectation_dense. Qed.
+Print Assumptions ttns_expectation_dense.
+
+(* children environment . parent environment = closed value, at every node (what TTNEnviron is used for) *)
+Theorem ttns_env_split : forall (R : CRing) path (t : ttree R) (o : ptree R) Pe u ou,
+  subtree R path t = Some u -> psub R path o = Some ou ->
+  sumP R t o (fun pb po pk => rmul R (Pe pb po pk) (cenv R t o pb po pk)) =
+  sumP R u ou (fun kb ko kk => rmul R (penv_at R t o path Pe kb ko kk) (cenv R u ou kb ko kk)).
+Proof. exact TtnsEnvProofs.env_split. Qed.
+Print Assumptions ttns_env_split.
+
+(* calc_1site_rdm entry (ket, bra) = <psi| (|bra><ket| on the node (x) identity) |psi> = Tr_rest |psi><psi| *)
+Theorem rdm1_dense : forall (R : CRing) (t : ttree R) (o : ptree R) path ket bra u,
+  compat R t o -> tdim R t = 1 -> pdim R o = 1 ->
+  subtree R path t = Some u -> (exists ou, psub R path o = Some ou) ->
+  all_lt (tpd R u) ket = true -> all_lt (tpd R u) bra = true ->
+  rdm1_site R t o path ket bra =
+  sumcfgs R (tpdims R t) (fun su => sumcfgs R (tpdims R t) (fun sd =>
+    rmul R (rmul R (rcj R (tamp R t su 0))
+                   (oamp R (pfull R (set_unit R path (length (tpd R u)) ket bra o)) su sd 0))
+           (tamp R t sd 0))).
+Proof. exact TtnsEnvProofs.rdm1_dense. Qed.
+Print Assumptions rdm1_dense.
+
+(* calc_1dof_rdm: the other DoFs of the node traced out of the site RDM *)
+Theorem rdm1dof_dense : forall (R : CRing) (t : ttree R) (o : ptree R) path j a b u,
+  compat R t o -> tdim R t = 1 -> pdim R o = 1 ->
+  subtree R path t = Some u -> (exists ou, psub R path o = Some ou) ->
+  (forall x, all_lt (put_nth j 1 (tpd R u)) x = true ->
+             all_lt (tpd R u) (put_nth j a x) = true /\ all_lt (tpd R u) (put_nth j b x) = true) ->
+  rdm1_dof R t o path j a b =
+  sumcfg (put_nth j 1 (tpd R u)) (fun x =>
+    sumcfgs R (tpdims R t) (fun su => sumcfgs R (tpdims R t) (fun sd =>
+      rmul R (rmul R (rcj R (tamp R t su 0))
+                     (oamp R (pfull R (set_unit R path (length (tpd R u)) (put_nth j a x) (put_nth j b x) o)) su sd 0))
+             (tamp R t sd 0)))).
+Proof. exact TtnsEnvProofs.rdm1dof_dense. Qed.
+Print Assumptions rdm1dof_dense.
+
+(* calc_2site_rdm, every pair of sites: tensors of the nodes on the two branches below the turning point w,
+   environments of the children off the path, parent environment of w *)
+Theorem rdm2_dense : forall (R : CRing) k1 b1 k2 b2 (t : ttree R) (o : ptree R) p1 p2 u ou,
+  let w := lcp p1 p2 in
+  compat R t o -> tdim R t = 1 -> pdim R o = 1 ->
+  subtree R w t = Some u -> psub R w o = Some ou -> compat R u ou ->
+  okD R k1 b1 k2 b2 u (Some (skipn (length w) p1)) (Some (skipn (length w) p2)) ->
+  rdm2_site R t o p1 p2 k1 k2 b1 b2 =
+  sumcfgs R (tpdims R t) (fun su => sumcfgs R (tpdims R t) (fun sd =>
+    rmul R (rmul R (rcj R (tamp R t su 0))
+                   (oamp R (pfull R (set_sub R w (units R k1 b1 k2 b2 u ou (Some (skipn (length w) p1)) (Some (skipn (length w) p2))) o)) su sd 0))
+           (tamp R t sd 0))).
+Proof. exact TtnsEnvProofs.rdm2_dense. Qed.
+Print Assumptions rdm2_dense.
+
+Theorem find_path_is_path : forall p1 p2, is_chain (find_path p1 p2).
+Proof. exact TtnsEnvProofs.find_path_is_path. Qed.
+Print Assumptions find_path_is_path.
+
+Theorem find_path_common : forall p1 p2, exists rest,
+  filter (fun x => existsb (lnat_eqb x) (anc p2)) (anc p1) = lcp p1 p2 :: rest.
+Proof. exact TtnsEnvProofs.find_path_common. Qed.
+Print Assumptions find_path_common.
+
 (* ------------------------------------------------------------------ non-vacuity *)
 Local Open Scope Z_scope.
 Definition zsum (l : list nat) : Z := fold_right (fun x a => Z.of_nat x + a) 0 l.
@@ -195,3 +272,26 @@ Proof. eexists. split; [reflexivity|]. vm_compute. split; reflexivity. Qed.
 Example ex_names : NoDup (tlabels ZRing (ex_t 1)) /\
   parent_names ZRing None (ex_t 1) = [NBond None 0%nat; NBond (Some 0%nat) 1%nat; NBond (Some 1%nat) 3%nat; NBond (Some 0%nat) 2%nat].
 Proof. split; [|reflexivity]. repeat constructor; cbn; intuition discriminate. Qed.
+
+(* second part: the dummy operator fits the example tree; norm^2, a site RDM entry and a two-site RDM entry
+   (sites 3 = [0;0] and 2 = [1]) computed by the environment model equal the brute-force sums *)
+Example ex_compat : compat ZRing (ex_t 1) (pdummy_of ZRing (ex_t 1)).
+Proof. cbn. tauto. Qed.
+Example ex_okD : okD ZRing [1%nat] [0%nat] [0%nat] [0%nat] (ex_t 1) (Some [0%nat; 0%nat]) (Some [1%nat]).
+Proof. cbn. tauto. Qed.
+Example ex_norm_value :
+  texpect ZRing (ex_t 1) (pdummy_of ZRing (ex_t 1)) =
+  sumcfgs ZRing (tpdims ZRing (ex_t 1)) (fun s => tamp ZRing (ex_t 1) s 0 * tamp ZRing (ex_t 1) s 0)
+  /\ texpect ZRing (ex_t 1) (pdummy_of ZRing (ex_t 1)) <> 0.
+Proof. vm_compute. split; [reflexivity|discriminate]. Qed.
+Example ex_rdm1_value :
+  rdm1_site ZRing (ex_t 1) (pdummy_of ZRing (ex_t 1)) [0%nat] [0%nat; 1%nat] [1%nat; 1%nat] =
+  @sumcfg ZRing [2%nat] (fun r => @sumcfg ZRing [2%nat] (fun x => @sumcfg ZRing [1%nat] (fun y =>
+    tamp ZRing (ex_t 1) [r; [0%nat; 1%nat]; x; y] 0 * tamp ZRing (ex_t 1) [r; [1%nat; 1%nat]; x; y] 0))).
+Proof. vm_compute. reflexivity. Qed.
+Example ex_rdm2_value :
+  rdm2_site ZRing (ex_t 1) (pdummy_of ZRing (ex_t 1)) [0%nat; 0%nat] [1%nat] [1%nat] [0%nat] [0%nat] [0%nat] =
+  @sumcfg ZRing [2%nat] (fun r => @sumcfg ZRing [2%nat; 2%nat] (fun x =>
+    tamp ZRing (ex_t 1) [r; x; [1%nat]; [0%nat]] 0 * tamp ZRing (ex_t 1) [r; x; [0%nat]; [0%nat]] 0))
+  /\ find_path [0%nat; 0%nat] [1%nat] = [[0%nat; 0%nat]; [0%nat]; []; [1%nat]].
+Proof. vm_compute. split; reflexivity. Qed.
